@@ -43,6 +43,18 @@ NEEDS = {
  "C08-b": "an if guarded by a chained logic condition (a && b): LogicCondition forwarded to the parent block with result and right registers transposed",
  "C12-b": "a parameter named like a generated name (x.0) and a let x in the same function (init_func_params no longer registers the inner name)",
  "C19-b": "two extension leaves evaluated back to back that push equal custom instructions (the stack drops an extension instruction equal to its top entry)",
+ "C01-c": "a chain of at least four operands whose last three operators have strictly increasing priority, with an undeclared or wrongly typed operand among the leading ones (the final fold runs once instead of to the root: the leading operand is never analysed)",
+ "C02-c": "a let mut x that shadows a visible immutable x, followed by an assignment to x (the shadowing value copies the mutable flag of the shadowed one)",
+ "C03-c": "a visible outer x, a shadowing let x two or more blocks deep, then another let x after that body (set_inner_value_name reaches the direct parent only)",
+ "C06-c": "a call used as a value whose argument itself allocates a register (the call's register is reserved before the arguments are analysed)",
+ "C07-c": "a bracketed chain with an inner priority inversion as the first operand of its chain or as the whole expression (the leading bracket is no longer folded)",
+ "C08-c": "an if guarded by a logic condition whose comparison has at least one register-producing operand (the comparison is written to a register number read before its operands were analysed)",
+ "C14-c": "an assignment whose target is undeclared and whose right-hand side has its own violation naming another identifier (the target is looked up before the expression is analysed)",
+ "C15-c": "a constant whose operation chain has a literal operand before a reference to an undeclared constant (the walk stops at the first literal; this re-introduces the repaired defect F6b)",
+ "C11-c": "a function declared with result type () that has a nested return (the with-label form is vetoed for functions without a result)",
+ "C12-c": "a shadowing let whose next counter is already taken: the same name re-declared in two sibling blocks, or a look-alike name x.0 (the name probe is skipped for re-declarations)",
+ "C19-c": "an assignment to an undeclared or immutable variable whose right-hand side contains an extension leaf (the expression is analysed only after the target checks pass)",
+ "C20-c": "a function with an empty body (serde skip_serializing_if on FunctionStatement.body without a default: serialises, does not deserialise)",
  "C04-c": "a block nested two or more levels deep that allocates registers, followed by register-allocating code two or more levels up (set_register reaches only the direct parent, register numbers are re-issued with other types)",
  "C05-c": "an earlier return inside an if or loop of the function, followed by a sibling if/else whose then-branch does not return (the jump to if_end is skipped when the inherited manual_return flag is set)",
  "C09-c": "a plain if/else whose else body writes a register after the condition or the if body wrote one (the else block state is created early and keeps a stale counter)",
